@@ -20,4 +20,5 @@ let () = each_line (fun l ->
     ^ (if !drift = [] then "" else " DRIFT " ^ String.concat "," (List.rev !drift))
     ^ (if is_empty a then " empty" else " nonempty")
     ^ (if ta_same a r then " whole" else " proper")
+    ^ (if ta_same r (cand_model a) then " as_model" else " other_witness")
   | _ -> "FAIL exception " ^ o)
